@@ -208,6 +208,8 @@ def compose(tbl, tier, seed):
     #     small zero-diagonal patterns of full structural rank (TLC list),
     #     the named pivot-forcing families, dense and graded matrices
     for pv in tbl["pivot"]:
+        if len(pv) > 200:
+            pv = rnd.sample(pv, 200)
         for pt in pv:
             n = int(round(len(pt["p"]) ** 0.5))
             for vc in range(nvc):
